@@ -62,7 +62,12 @@ def showRows (r : List Vec) : String := joinWith ";" (r.map showVec)
 def absQ (q : Rat) : Rat := if q < 0 then -q else q
 
 /-- is the rational exactly a binary64 value (exponent range not checked beyond 2^±1000)? -/
-partial def oddPart (n : Nat) : Nat := if n != 0 && n % 2 == 0 then oddPart (n / 2) else n
+def oddPartAux : Nat → Nat → Nat
+  | 0, n => n
+  | fuel + 1, n => if n != 0 && n % 2 == 0 then oddPartAux fuel (n / 2) else n
+
+/-- `n` without its factors of two (`n` itself is more fuel than there are such factors) -/
+def oddPart (n : Nat) : Nat := oddPartAux n n
 
 def isPow2 (d : Nat) : Bool := d != 0 && (d &&& (d - 1)) == 0
 
@@ -161,6 +166,7 @@ def mkRxn (pk : Pk) (basis : Basis) (X : Rat) (r : String) (phasesArg : String) 
       else if defKind == "dict" then
         (parseTermsDict false payload).map fun t => .ok (t.filter (·.2.2 != 0))
       else if defKind == "xdict" then (parseTermsDict true payload).map .ok
+      else if defKind == "xarr" then some (.ok [])       -- rows given directly (below)
       else none
     match termsO with
     | none => none
@@ -169,7 +175,12 @@ def mkRxn (pk : Pk) (basis : Basis) (X : Rat) (r : String) (phasesArg : String) 
       if x && (defKind == "dict") then none else   -- a plain dict with phases is not generated
       let flatE : Except Err (Vec × Nat) :=
         if x then do
-          let rows ← terms2rows pk.names phases terms
+          -- `Reaction([[…], […]], phases=…)`: the rows are taken as given, in the order of the sorted phases
+          let rows ← if defKind == "xarr" then
+              (match parseRows payload with
+               | some r => if r.length == phases.length && r.all (·.length == n) then .ok r else .error .shape
+               | none => .error .shape)
+            else terms2rows pk.names phases terms
           let j ← if r == "auto" then autoReactantCol rows n
                   else match pk.names.index r with
                     | some j => pure j
@@ -391,6 +402,11 @@ def step (st : St) (line : String) : St × String :=
     | none, _ => (st, "noref")
     | some e0, some rows =>
       let e := st.current e0
+      -- an integer ndarray cannot hold the result (the write-back would truncate): rejected
+      -- (proposed repair fixes_proposed/C05-7.md; the code as found truncates silently)
+      if kv rest "as" == some "int" then (st, "err=TypeError exact=1 fragile=0 negsum=0") else
+      -- `Reaction.conversion(material)`: the material is left as it was
+      if kv rest "mode" == some "conversion" then (st, s!"out={showRows rows} tag=clean exact=1 fragile=0 negsum=0") else
       (st, callLine e.o e.ex (.array rows) rows.flatten false (kv rest "mode" == some "force" || kv rest "mode" == some "nocheck"))
     | _, _ => (st, "bad-op")
   | "call" :: name :: "view" :: rest =>
@@ -423,6 +439,18 @@ def step (st : St) (line : String) : St × String :=
       | .ok phases =>
         if rows.length != phases.length || !(rows.all (·.length == pk.ids.length)) then (st, "bad-op") else
         let o := e.o
+        if kv rest "mode" == some "conversion" then
+          -- `Reaction.conversion(stream)`: same guards and package remap as `__call__`, the stream is left
+          -- as it was (the remap there and back must give the rows back)
+          let guard : Except Err (List Vec) :=
+            if !o.phases.isEmpty && phases != o.phases then .error .valueError
+            else if o.phases.isEmpty && phases.length > 1 then .error .valueError
+            else if pk.ids == o.pkg then .ok rows
+            else (remapRows pk.ids o.pkg rows).bind (remapRows o.pkg pk.ids)
+          match guard with
+          | .error err => (st, s!"err={err.toString} exact=1 fragile=0 negsum=0")
+          | .ok r => (st, s!"out={showRows r} tag=clean exact=1 fragile=0 negsum=0")
+        else
         let flatIn := match (if pk.ids == o.pkg then .ok rows else remapRows pk.ids o.pkg rows) with
           | .ok r => r.flatten | .error _ => []
         (st, callLine o e.ex (.stream phases pk.ids rows) flatIn (o.basis == .wt)
